@@ -4,5 +4,7 @@
 #include "hwloc.h"
 #include "private/private.h"
 #include "cpukinds.model.h"
+/* libc memmove on the kinds array (restrict): element-wise stub, checks that whole elements are moved (cbmc's byte-wise model does not scale on struct arrays) */
+#define memmove verif_memmove_kinds
 #include HWLOC_VERIF_SRC_CPUKINDS
 #include "cpukinds.harness.c"
